@@ -17,6 +17,21 @@ def findings(pid):
             r += [e for e in json.load(open(p))["findings"] if e["property"] == pid]
     return r
 
+def load_results(rp):
+    """RESULTS.json as written by tools/mutant-sweep ({path: {kind, verdict, as_expected, …}}); a plain
+    {"name": "caught|missed|passed(neutral)"} map written by hand is normalised to the same shape."""
+    out = {}
+    for k, v in json.load(open(rp)).items():
+        if isinstance(v, str):
+            neutral = os.path.basename(k).startswith("neutral")
+            verdict = "caught" if v.startswith("caught") else ("passed" if v.startswith("passed") else v)
+            v = {"kind": "neutral" if neutral else "breaking", "verdict": verdict,
+                 "as_expected": (verdict == "passed") if neutral else (verdict == "caught")}
+        if not k.startswith("mutants/") and not k.startswith("seeded/"):
+            k = "mutants/" + os.path.basename(os.path.dirname(rp)) + "/" + k
+        out[k] = v
+    return out
+
 w(B)
 w("")
 w("### 11.1 Per property: obligations, tie, findings")
@@ -37,7 +52,7 @@ for pid in ids:
     mt = ""
     nm = len(glob.glob(os.path.join(ROOT, "mutants", pid, "*.patch")))
     if os.path.exists(rp):
-        r = {k: v for k, v in json.load(open(rp)).items() if k.startswith("mutants/")}
+        r = {k: v for k, v in load_results(rp).items() if k.startswith("mutants/")}
         br = [v for v in r.values() if v["kind"] == "breaking"]; ne = [v for v in r.values() if v["kind"] == "neutral"]
         mt = f"{sum(v['verdict'] == 'caught' for v in br)}/{len(br)}, {sum(v['verdict'] == 'passed' for v in ne)}/{len(ne)}"
     elif nm:
@@ -86,7 +101,7 @@ w("")
 for pid in ids:
     rp = os.path.join(ROOT, "mutants", pid, "RESULTS.json")
     if not os.path.exists(rp): continue
-    r = json.load(open(rp))
+    r = load_results(rp)
     w(f"* **{pid}**: " + "; ".join(f"{os.path.basename(k)[:-6] if k.endswith('.patch') else k} → {v['verdict']}{'' if v['as_expected'] else ' (UNEXPECTED)'}" for k, v in sorted(r.items())))
 w("")
 w(E)
